@@ -35,7 +35,7 @@ def vstackList {α : Type} (axis : Option Int) : List (Expr α) → Option (Expr
 
 /-- numpy / `sigpy.util` / `sigpy.block` / `sigpy.interp` call made by an `_apply` body on `input`, with its
     other arguments -/
-inductive Prim where
+inductive Prim (α : Type) where
   | ret                                                                   -- `return input`
   | reshape (oshape : List Int)                                           -- `input.reshape(oshape)`
   | transpose (axes : Option (List Int))                                  -- `input.transpose(axes)`
@@ -51,13 +51,16 @@ inductive Prim where
   | gridding (oshape pts : List Int) (coord : List (List Rat)) (width param : Rat)  -- `interp.gridding(input, coord, oshape, …)`
   | blocksToArray (oshape blk str : List Int)                             -- `block.blocks_to_array(input, oshape, blk, str)`
   | setitemZeros (oshape : List Int) (idx : List PySlice)                 -- `out = np.zeros(oshape); out[idx] = input`
+  /-- `if adjoint: mat = xp.conj(mat).swapaxes(-1, -2)` then `xp.matmul(mat, input)` (`right = false`) or
+      `xp.matmul(input, mat)` (`right = true`) -/
+  | matmul (right : Bool) (mshape : List Int) (mat : List α) (adjoint : Bool)
 
 section prim
-variable {α : Type} [Add α] [Mul α] [Zero α] [One α] (ofRat : Rat → α)
+variable {α : Type} [Add α] [Mul α] [Zero α] [One α] (conj : α → α) (ofRat : Rat → α)
 
 /-- what the primitive does to an array of shape `ish` (the numpy / util contracts of the model, the same
     functions `leafSem0` uses) -/
-def primSem (ish : List Int) : Prim → Option (Sem α)
+def primSem (ish : List Int) : Prim α → Option (Sem α)
   | .ret => some ⟨ish, ish, idE (shapeProd ish).toNat⟩
   | .reshape osh => if shapeProd osh = shapeProd ish then some ⟨osh, ish, idE (shapeProd ish).toNat⟩ else none
   | .transpose axes => transposeSem ish axes
@@ -86,6 +89,7 @@ def primSem (ish : List Int) : Prim → Option (Sem α)
         ⟨osh, lead ++ pts, updToEnt ofRat gs ps E⟩
   | .blocksToArray osh blk str => b2aSem ofRat osh blk str
   | .setitemZeros osh idx => (sliceSem (α := α) osh idx).map fun s => ⟨s.ish, s.osh, swapE s.E⟩
+  | .matmul right msh mat adjoint => matmulSem conj right ish msh mat adjoint
 
 /-- `self.ishape` of the classes whose `_apply` is a single primitive call on `input` -/
 def ishOf : Leaf α → Option (List Int)
@@ -104,6 +108,8 @@ def ishOf : Leaf α → Option (List Int)
   | .gridding osh pts coord w p => (interpEntries true osh pts coord w p).map fun t => t.1 ++ pts
   | .b2a osh blk str => (blockShapes osh blk str).map fun t => t.1 ++ C09.zip3With Gen.b2aNumBlks t.2.1 blk str ++ blk
   | .embed osh idx => (sliceSem (α := α) osh idx).map fun s => s.osh
+  | .matmul ish _ _ _ => some ish
+  | .rmatmul ish _ _ _ => some ish
   | _ => none
 
 end prim
